@@ -36,12 +36,20 @@ where
     }
 
     pub(crate) fn run(mut self) -> Result<(), S::Error> {
+        // When the search is stopped in the middle of a buffer, the part of
+        // that buffer already searched counts toward the bytes searched, as
+        // it does when searching a slice.
+        let mut partial = 0;
         if self.core.begin()? {
-            while self.fill()? && self.core.match_by_line(self.rdr.buffer())? {
+            while self.fill()? {
+                if !self.core.match_by_line(self.rdr.buffer())? {
+                    partial = self.core.pos() as u64;
+                    break;
+                }
             }
         }
         self.core.finish(
-            self.rdr.absolute_byte_offset(),
+            self.rdr.absolute_byte_offset() + partial,
             self.rdr.binary_byte_offset(),
         )
     }
